@@ -593,3 +593,22 @@ func layeredElectionSchedule(rng *rand.Rand, seed int64) ([][2]int, string) {
 	}
 	return cur.sched, ""
 }
+
+// findCollisionsMain prints pairs (i, j) such that detKey(0,"collide",i) and
+// detKey(0,"collide",j) have the same 32-bit peer id (birthday search).
+func findCollisionsMain(args []string) int {
+	want, _ := strconv.Atoi(args[0])
+	seen := map[uint32]int{}
+	found := 0
+	for i := 0; found < want && i < 2000000; i++ {
+		k := detKey(0, "collide", i)
+		id := mkPeer(k, "x", "x").ID()
+		if j, ok := seen[id]; ok {
+			fmt.Printf("{%d, %d}, // id %d\n", j, i, id)
+			found++
+			continue
+		}
+		seen[id] = i
+	}
+	return 0
+}
